@@ -791,7 +791,7 @@ static void     reply(int fout, int kind, int code) {
 __attribute__((used)) const char* __asan_default_options(void);
 __attribute__((used)) const char* __asan_default_options(void) {
     return "exitcode=77:detect_leaks=0:handle_sigfpe=1:allocator_may_return_null=1:"
-           "abort_on_error=0:detect_stack_use_after_return=0:malloc_fill_byte=165:max_malloc_fill_size=4096";
+           "abort_on_error=0:detect_stack_use_after_return=0:malloc_fill_byte=165:max_malloc_fill_size=4096:max_allocation_size_mb=512";
 }
 
 int __wrap_main(int argc, char** argv) {
